@@ -247,7 +247,11 @@ def cut_loop(ex, state, st, kind, spec, ordinal):
             state.frame.locals[n] = calls.fresh_like(ex, state, cur, n)
     for path in sorted(attrs | subs | set(spec.get("modifies", []))):
         parts = path.split(".")
-        base = state.frame.locals.get(parts[0])
+        base = None
+        f = state.frame
+        while f is not None and base is None:
+            base = f.locals.get(parts[0])
+            f = f.closure
         if parts[0] == "ghost":
             base = state.ghost
         if base is None:
